@@ -370,7 +370,9 @@ def model_faults(case, step):
     if kinds & set(COLLECT_FAULTS):
         ph.append("collect:CollectionError")
     if "sysexit_import" in kinds:
-        ph.append("collect:BASE")
+        # SystemExit at import time: a failed collection report if the collection protocol catches it, else it escapes
+        import extract_buildtop
+        ph.append("collect:CollectionError" if "SystemExit" in extract_buildtop.collect_file_catches() else "collect:BASE")
     if kinds & {"bad_k", "bad_m", "bad_after"}:
         ph.append("dag:ValueError")
     return conf, ",".join(ph)
